@@ -88,11 +88,11 @@ PublicPieces(v, pk, M, F, A) ==
 
 Fld(name, t) == [name |-> name, t |-> t]
 
-\* the decoded payload of the token the PASETO specification prescribes, as named fields
-MintFields(pr, K, S, M, F, A) ==
+\* the decoded payload of the token the PASETO specification prescribes, as named fields,
+\* for a given wire nonce n (local protocols)
+MintFieldsN(pr, K, n, M, F, A) ==
   LET v == pr[1] IN
   IF pr[2] = "local" THEN
-    LET n == WireNonce(v, S, M) IN
     IF v = 2 THEN
       <<Fld("nonce", n), Fld("body", Aead("xchacha20-poly1305", K, n, M, V2Aad(n, F)))>>
     ELSE
@@ -103,6 +103,9 @@ MintFields(pr, K, S, M, F, A) ==
     LET alg == SigAlg(v)
         sk  == Sk(alg, K)
     IN <<Fld("msg", M), Fld("sig", Sig(alg, sk, Pae(PublicPieces(v, Pk(alg, sk), M, F, A))))>>
+
+\* ... with the wire nonce derived from the caller's nonce seed S as Version1/2.md prescribe
+MintFields(pr, K, S, M, F, A) == MintFieldsN(pr, K, WireNonce(pr[1], S, M), M, F, A)
 
 (***************************************************************************)
 (* Wire form of a token: header text, decoded payload as fields, whether   *)
